@@ -331,9 +331,9 @@ def rule_d(model, rep, table):
                   witness=f"{cn} hashes do not verify under passlib.hash.{pname}")
     # bcrypt
     hf, vf = model.func(LB, "BcryptHasher.hash"), model.func(LB, "BcryptHasher.verify")
-    rep.check(returns(hf) == ["as_str(bcrypt.hashpw(as_bytes(secret), salt))"] and has_stmt(hf, "salt = salt or bcrypt.gensalt(rounds=self._rounds, prefix=self.prefix)"), R, site(LB, "BcryptHasher.hash"), "; ".join(returns(hf)),
+    rep.check(returns(hf) == ["as_str(bcrypt.hashpw(as_bytes(secret)[:72], salt))"] and has_stmt(hf, "salt = salt or bcrypt.gensalt(rounds=self._rounds, prefix=self.prefix)"), R, site(LB, "BcryptHasher.hash"), "; ".join(returns(hf)),
               "bcrypt: the library hashes the UTF-8 password with a salt of the configured cost and ident")
-    rep.check(has_if(vf, "not self.identify(hash)", ["return False"]) and returns(vf)[-1:] == ["bcrypt.checkpw(password=as_bytes(secret), hashed_password=as_bytes(hash))"], R, site(LB, "BcryptHasher.verify"), "; ".join(returns(vf)),
+    rep.check(has_if(vf, "not self.identify(hash)", ["return False"]) and returns(vf)[-1:] == ["bcrypt.checkpw(password=as_bytes(secret)[:72], hashed_password=as_bytes(hash))"], R, site(LB, "BcryptHasher.verify"), "; ".join(returns(vf)),
               "bcrypt verify(): format check, then the library's constant-time check of password against the whole hash")
     # a caller-supplied salt is rendered as given: it must fit what the hasher's own record regex (and passlib) accept
     lu = model.unit("libpass.inspect.sha_crypt")
